@@ -14,10 +14,19 @@ void x__ZSt9terminatev(void) { __VERIFIER_trap(); }
 /* libstdc++ std::string helpers reached when a tao::pegtl::position (std::string source) is built from a const char* source */
 void x__ZSt19__throw_logic_errorPKc(u8 *msg) { __VERIFIER_trap(); }
 void x__ZSt20__throw_length_errorPKc(u8 *msg) { __VERIFIER_trap(); }
+/* heap buffers of std::string.  Default: exactly the requested size.  VF_STRING_FIXED_ALLOC=<n> (opt-in, defined by the harness before verif.h):
+ * every buffer is an object of the constant size n (a heap object of symbolic size is very costly for the model checker); a request for more
+ * than n bytes is REPORTED (trap), accesses between the requested size and n are then not flagged by the model checker (ASan on the real build
+ * used for translation validation still sees them) */
+#ifdef VF_STRING_FIXED_ALLOC
+static u8 *vf_str_alloc(u64 n) { u8 *p; if (n > VF_STRING_FIXED_ALLOC) __VERIFIER_trap(); p = malloc(VF_STRING_FIXED_ALLOC); __VERIFIER_assume_nonnull(p); return p; }
+#else
+static u8 *vf_str_alloc(u64 n) { u8 *p = malloc(n); __VERIFIER_assume_nonnull(p); return p; }
+#endif
 #ifndef VF_STRING_SELF_T   /* units in which std::string is a complete type declare the parameter as a struct pointer: the harness sets this */
 #define VF_STRING_SELF_T void
 #endif
-u8 *x__ZNSt7__cxx1112basic_stringIcSt11char_traitsIcESaIcEE9_M_createERmm(VF_STRING_SELF_T *self, u64 *cap, u64 old) { u8 *p = malloc(*cap + 1); __VERIFIER_assume_nonnull(p); return p; }
+u8 *x__ZNSt7__cxx1112basic_stringIcSt11char_traitsIcESaIcEE9_M_createERmm(VF_STRING_SELF_T *self, u64 *cap, u64 old) { return vf_str_alloc(*cap + 1); }
 /* libstdc++ std::string, out-of-line members, on the real x86-64 SSO layout: +0 char* data, +8 size, +16 union { char local[16]; size_t capacity }
  * (data == self + 16 <=> short string of capacity 15).  Written from bits/basic_string.tcc; growth reallocates like _M_create (doubling policy). */
 static u8 *vf_str_data(void *s) { return *(u8 **)s; }
@@ -32,7 +41,7 @@ void x__ZNSt7__cxx1112basic_stringIcSt11char_traitsIcESaIcEE9_M_mutateEmmPKcm(vo
   u8 *old = vf_str_data(self), *r;
   if (ncap > 0x3fffffffffffffffULL) { x__ZSt20__throw_length_errorPKc((u8 *)"basic_string::_M_create"); return; }
   if (ncap > ocap && ncap < 2 * ocap) { ncap = 2 * ocap; if (ncap > 0x3fffffffffffffffULL) ncap = 0x3fffffffffffffffULL; }
-  r = malloc(ncap + 1); __VERIFIER_assume_nonnull(r);
+  r = vf_str_alloc(ncap + 1);
   for (u64 i = 0; i < pos; ++i) r[i] = old[i];
   if (s) for (u64 i = 0; i < len2; ++i) r[pos + i] = s[i];
   for (u64 i = 0; i < how_much; ++i) r[pos + len2 + i] = old[pos + len1 + i];
@@ -43,6 +52,36 @@ void x__ZNSt7__cxx1112basic_stringIcSt11char_traitsIcESaIcEE9_M_mutateEmmPKcm(vo
 void x__ZNSt7__cxx1112basic_stringIcSt11char_traitsIcESaIcEE9_M_mutateEmmPKcm(void *self, u64 pos, u64 len1, u8 *s, u64 len2) { __VERIFIER_unreachable(); }
 #endif
 /* basic_string::_M_append( s, n ) */
+#ifdef VF_STRING_SPLIT_STORES
+/* VF_STRING_SPLIT_STORES=<n> (opt-in, with VF_STRING_FIXED_ALLOC >= n): the same function written so that every store goes to a CONSTANT offset of the
+ * destination buffer (guarded; the source is read at a variable index instead): a store at a symbolic offset into the in-object buffer makes the
+ * model checker treat the whole std::string as bytes and lose its data pointer.  A result of n or more characters is reported (trap). */
+void *x__ZNSt7__cxx1112basic_stringIcSt11char_traitsIcESaIcEE9_M_appendEPKcm(void *self, u8 *s, u64 n) {
+  u64 sz = vf_str_size(self), len = sz + n, cap = vf_str_cap(self);
+  u8 *old = vf_str_data(self), app[VF_STRING_SPLIT_STORES];
+  if (len >= VF_STRING_SPLIT_STORES) { __VERIFIER_trap(); return self; }
+  for (u64 i = 0; i < VF_STRING_SPLIT_STORES; ++i) app[i] = i < n ? s[i] : 0;       /* the appended characters followed by the terminator */
+  if (len <= cap) {
+    if (old == (u8 *)self + 16) { for (u64 j = 0; j < 16; ++j) if (j >= sz && j <= len) old[j] = app[j - sz]; }
+#ifdef VF_STRING_NO_INPLACE_HEAP_APPEND     /* opt-in: appending within the capacity of a heap buffer does not occur in the including check: reaching it is REPORTED */
+    else __VERIFIER_trap();
+#else
+    else { for (u64 j = 0; j < VF_STRING_SPLIT_STORES; ++j) if (j >= sz && j <= len) old[j] = app[j - sz]; }
+#endif
+  } else {
+    /* _M_mutate( sz, 0, s, n ): new buffer (doubling policy), old content, appended characters, terminator */
+    u64 ncap = len;
+    u8 *r;
+    if (ncap < 2 * cap) ncap = 2 * cap;
+    r = vf_str_alloc(ncap + 1);
+    for (u64 j = 0; j < VF_STRING_SPLIT_STORES; ++j) { if (j < sz) r[j] = old[j]; else if (j <= len) r[j] = app[j - sz]; }
+    if (old != (u8 *)self + 16) free(old);
+    *(u8 **)self = r; *(u64 *)((u8 *)self + 16) = ncap;
+  }
+  *(u64 *)((u8 *)self + 8) = len;
+  return self;
+}
+#else
 void *x__ZNSt7__cxx1112basic_stringIcSt11char_traitsIcESaIcEE9_M_appendEPKcm(void *self, u8 *s, u64 n) {
   u64 sz = vf_str_size(self), len = sz + n;
   if (len <= vf_str_cap(self)) { u8 *d = vf_str_data(self) + sz; for (u64 i = 0; i < n; ++i) d[i] = s[i]; }
@@ -50,6 +89,7 @@ void *x__ZNSt7__cxx1112basic_stringIcSt11char_traitsIcESaIcEE9_M_appendEPKcm(voi
   *(u64 *)((u8 *)self + 8) = len; vf_str_data(self)[len] = 0;
   return self;
 }
+#endif
 /* basic_string::reserve( res )  (libstdc++ 11+: never shrinks) */
 void x__ZNSt7__cxx1112basic_stringIcSt11char_traitsIcESaIcEE7reserveEm(void *self, u64 res) {
   u64 cap = vf_str_cap(self), len = vf_str_size(self);
@@ -57,7 +97,7 @@ void x__ZNSt7__cxx1112basic_stringIcSt11char_traitsIcESaIcEE7reserveEm(void *sel
   if (res <= cap) return;
   if (res > 0x3fffffffffffffffULL) { x__ZSt20__throw_length_errorPKc((u8 *)"basic_string::_M_create"); return; }
   if (res < 2 * cap) { res = 2 * cap; if (res > 0x3fffffffffffffffULL) res = 0x3fffffffffffffffULL; }
-  r = malloc(res + 1); __VERIFIER_assume_nonnull(r);
+  r = vf_str_alloc(res + 1);
   for (u64 i = 0; i <= len; ++i) r[i] = old[i];
   if (old != (u8 *)self + 16) free(old);
   *(u8 **)self = r; *(u64 *)((u8 *)self + 16) = res;
